@@ -222,6 +222,25 @@ add("trk_c15_native", "rsadsb_common", T + "obl_c15_native", props=["C15"], stub
 add("trk_incr_count", "rsadsb_common", T + "obl_action_other_me", args="false", props=["C15", "C12"], stubs=["fmt", ENTRY], unwind=8,
     features=("alloc",), domain="fully symbolic record: every DF17 frame is counted exactly once (the counted frames are the ones that refresh last-heard)", functions=TRK_FN, timeout=900)
 
+add("frame_any_native", "adsb_deku", F + "obl_frame_any", props=["native-oracle"], stubs=[], tier="native",
+    domain="native oracle: any buffer of 0..=32 bytes", functions=["Frame::from_bytes"])
+
+# ---- C19: reader independence -------------------------------------------------------------------
+R = "crate::verif_obl_reader::"
+RD_FN = ["Frame::from_reader", "ReaderCrc::read", "ReaderCrc::seek", "Frame::read_crc"]
+for _nm, _b0, _b4 in (("df11", 0x5d, -1), ("df19", 0x98, -1), ("df24", 0xc5, -1), ("df17tc24", 0x8d, 0xc0), ("df00", 0x02, -1), ("df16", 0x80, -1), ("df20mb30", 0xa0, 0x30)):
+    add("rd_single_%s" % _nm, "adsb_deku", R + "obl_reader_frag", args="0x%02x, %d, 0, 0" % (_b0, _b4), props=["C19", "C01"], unwind=40, kani_flags=FAST,
+        tier="quick" if _nm in ("df11", "df19", "df24", "df17tc24") else "thorough", timeout=900,
+        bounded="schedule: every read delivers one byte; formats listed; frame bytes symbolic",
+        domain="complete frames, byte 0 = 0x%02x%s, all other bits symbolic; all-single-byte schedule" % (_b0, (", byte 4 = 0x%02x" % _b4) if _b4 >= 0 else ""), functions=RD_FN)
+    for _k in (0, 1, 2, 3):
+        add("rd_short%d_%s" % (_k, _nm), "adsb_deku", R + "obl_reader_frag", args="0x%02x, %d, 1, %d" % (_b0, _b4, _k), props=["C19", "C01"], unwind=40, kani_flags=FAST,
+            tier="quick" if (_nm in ("df24", "df11") and _k in (0, 1)) else "thorough", timeout=900,
+            bounded="schedule: read call #%d is short (1 byte)" % _k,
+            domain="complete frames, byte 0 = 0x%02x, all other bits symbolic; read call %d short" % (_b0, _k), functions=RD_FN)
+add("reader_any_native", "adsb_deku", R + "obl_reader_any", props=["native-oracle"], stubs=[], tier="native",
+    domain="native oracle: any buffer, any schedule", functions=RD_FN)
+
 
 def select(prop, tier):
     out = []
